@@ -59,6 +59,8 @@ def _ev(e, env):
             if v:
                 return v
         return v
+    if isinstance(e, ast.IfExp):
+        return _ev(e.body, env) if _ev(e.test, env) else _ev(e.orelse, env)
     if isinstance(e, ast.Compare) and len(e.ops) == 1:
         a, b = _ev(e.left, env), _ev(e.comparators[0], env)
         op = e.ops[0]
@@ -153,7 +155,7 @@ def _naive_expr(e, f, ctx, depth=0, at=None, seen=None):
         if fn == "parse_method":
             return _params_naive(ctx)
         return False
-    if isinstance(e, ast.Name) and depth < 8:
+    if isinstance(e, ast.Name) and depth < 16:
         g = _cfg(f)
         if at is None:
             at = g.node_of_expr(f.node, e)
@@ -474,11 +476,17 @@ def relative_now_rule(ctx, chk, rule):
     # the local that is handed to _parse_date as the base
     pd_calls = [n for n in iter_own_nodes(fr.node) if isinstance(n, ast.Call) and ast.unparse(n.func) == "self._parse_date" and len(n.args) >= 2]
     nowv = ast.unparse(pd_calls[0].args[1]) if pd_calls else "now"
-    nows = [n for n in iter_own_nodes(fr.node) if isinstance(n, ast.Assign) and ast.unparse(n.targets[0]) == nowv]
+    holders = {nowv}            # the base and the locals it is copied from (`now = base` at the end of a written-out helper)
+    for _ in range(3):
+        for n in iter_own_nodes(fr.node):
+            if isinstance(n, ast.Assign) and len(n.targets) == 1 and isinstance(n.targets[0], ast.Name) and n.targets[0].id in holders \
+                    and isinstance(n.value, ast.Name):
+                holders.add(n.value.id)
+    nows = [n for n in iter_own_nodes(fr.node) if isinstance(n, ast.Assign) and ast.unparse(n.targets[0]) in holders]
     srcs = {" ".join(ast.unparse(n.value).split()) for n in nows}
     need = {r"apply_timezone\(\w+, settings\.TIMEZONE\)": "current instant expressed in TIMEZONE",
             r"settings\.RELATIVE_BASE": "RELATIVE_BASE",
-            r"localize_timezone\(%s, settings\.TIMEZONE\)" % nowv: "RELATIVE_BASE interpreted in TIMEZONE"}
+            r"localize_timezone\((?:%s), settings\.TIMEZONE\)" % "|".join(sorted(_re.escape(h_) for h_ in holders)): "RELATIVE_BASE interpreted in TIMEZONE"}
     missing = [w for pat, w in need.items() if not any(_re.fullmatch(pat, s_) for s_ in srcs)]
     utc_ok = any(_re.fullmatch(r"apply_timezone\((\w+), settings\.TIMEZONE\)", s_) and any(
         isinstance(n, ast.Assign) and ast.unparse(n.targets[0]) == _re.fullmatch(r"apply_timezone\((\w+), settings\.TIMEZONE\)", s_).group(1)
